@@ -22,18 +22,7 @@ Proof.
   cbn [process_csm_options].
   destruct (n =? 2); [apply IH|]. destruct (n =? 4); [apply IH|].
   destruct (is_critical n); [|apply IH].
-  rewrite abort_spool. destruct (abort c _ _) as [[c1 o1] ok]. cbn [on_conn3].
-  destruct ok; [|reflexivity].
-  rewrite IH. destruct (process_csm_options c1 st r) as [[[c2 s2] o2] ok2]. reflexivity.
-Qed.
-Lemma check_critical_options_spool : forall os c s,
-  check_critical_options (set_spool c s) os = on_conn3 (fun c => set_spool c s) (check_critical_options c os).
-Proof.
-  induction os as [|[n v] r IH]; intros c s; [reflexivity|].
-  cbn [check_critical_options]. destruct (is_critical n); [|apply IH].
-  rewrite abort_spool. destruct (abort c _ _) as [[c1 o1] ok]. cbn [on_conn3].
-  destruct ok; [|reflexivity].
-  rewrite IH. destruct (check_critical_options c1 r) as [[c2 o2] ok2]. reflexivity.
+  rewrite abort_spool. destruct (abort c _ _) as [[c1 o1] ok]. reflexivity.
 Qed.
 Lemma process_signaling_spool c s m :
   process_signaling (set_spool c s) m = on_conn3 (fun c => set_spool c s) (process_signaling c m).
@@ -44,10 +33,10 @@ Proof.
     rewrite process_csm_options_spool.
     destruct (process_csm_options c _ (opts m)) as [[[c1 s1] o] ok]. reflexivity. }
   destruct ((code m =? PING) || (code m =? PONG) || (code m =? RELEASE) || (code m =? ABORT)).
-  { rewrite check_critical_options_spool. destruct (check_critical_options c (opts m)) as [[c1 o1] ok]. cbn [on_conn3].
-    destruct ok; cbn [negb]; [|reflexivity].
+  { destruct (has_critical (opts m)).
+    { rewrite abort_spool. destruct (abort c _ None) as [[c1 o1] ok]. reflexivity. }
     destruct (code m =? PING).
-    { rewrite send_message_spool. destruct (send_message c1 _) as [[c2 o2] ok2]. reflexivity. }
+    { rewrite send_message_spool. destruct (send_message c _) as [[c2 o2] ok2]. reflexivity. }
     destruct (code m =? PONG); [reflexivity|]. destruct (code m =? RELEASE); reflexivity. }
   rewrite abort_spool. destruct (abort c _ _) as [[c1 o1] ok]. reflexivity.
 Qed.
@@ -80,8 +69,8 @@ Definition frame_step (c : conn) (f r : bytes) : fres :=
       let '(c1, o1, res) := process_signaling c' m in
       match res with
       | SExc => FStop c1 o1
-      | SOk => FNext c1 o1
-      | SClose e => FNext (set_closed c1) (o1 ++ [DispatchError e; Close])
+      | SOk => if closed c1 then FStop c1 o1 else FNext c1 o1
+      | SClose e => FStop (set_closed c1) (o1 ++ [DispatchError e; Close])
       end
     else
       match remote_settings c' with
@@ -111,7 +100,7 @@ Proof.
   2:{ destruct e; reflexivity. }
   destruct (is_signalling (code m)).
   { destruct (process_signaling _ m) as [[c1 o1] res]. destruct res; try reflexivity.
-    destruct (rec (set_closed c1)) as [[c2 o2] k]. rewrite <- app_assoc. reflexivity. }
+    destruct (closed c1); reflexivity. }
   destruct (remote_settings _); [reflexivity|].
   destruct (abort _ _ None) as [[c1 o1] ok]; reflexivity.
 Qed.
@@ -189,7 +178,7 @@ Proof.
   destruct (is_signalling (code m)).
   { pose proof (process_signaling_keeps_spool (set_spool c r) m) as Hs.
     destruct (process_signaling (set_spool c r) m) as [[c2 o2] res]. cbn [fst] in Hs.
-    destruct res; intros H; inv H; auto. }
+    destruct res; try discriminate. destruct (closed c2); intros H; inv H; auto. }
   destruct (remote_settings _).
   - intros H; inv H. reflexivity.
   - destruct (abort _ _ None) as [[c2 o2] ok]. discriminate.
@@ -205,7 +194,9 @@ Proof.
   { rewrite (process_signaling_spool c (r ++ t)), (process_signaling_spool c r).
     pose proof (process_signaling_keeps_spool c m) as Hs.
     destruct (process_signaling c m) as [[c1 o1] res]. cbn [fst] in Hs. cbn [on_conn3].
-    destruct res; reflexivity. }
+    destruct res; try reflexivity.
+    change (closed (set_spool c1 (r ++ t))) with (closed c1). change (closed (set_spool c1 r)) with (closed c1).
+    destruct (closed c1); reflexivity. }
   change (remote_settings (set_spool c (r ++ t))) with (remote_settings c).
   change (remote_settings (set_spool c r)) with (remote_settings c).
   destruct (remote_settings c); [reflexivity|].
@@ -301,20 +292,6 @@ Proof. unfold abort. destruct (serialize _); cbn; repeat split; try reflexivity;
 Lemma send_message_ok c m : let r := send_message c m in op_ok c r (snd r).
 Proof. unfold send_message. destruct (serialize _); cbn; repeat split; try reflexivity; destruct (closed c); reflexivity. Qed.
 
-Lemma check_critical_options_ok : forall os c, let r := check_critical_options c os in op_ok c r (snd r).
-Proof.
-  induction os as [|[n v] r IH]; intros c.
-  { cbn. repeat split; try reflexivity; destruct (closed c); reflexivity. }
-  cbn [check_critical_options]. destruct (is_critical n); [|apply IH].
-  pose proof (abort_ok c txt_unknown_critical_option None) as Ha. cbv zeta in Ha.
-  destruct (abort c _ None) as [[c1 o1] ok]. cbn [snd] in Ha. destruct Ha as (Ha1 & Ha2 & Ha3 & Ha4).
-  destruct ok.
-  - specialize (IH c1). cbv zeta in IH. destruct (check_critical_options c1 r) as [[c2 o2] ok2].
-    cbn [snd] in *. destruct IH as (I1 & I2 & I3 & I4). cbn [op_ok].
-    rewrite esc_app, has_close_app, Ha1, I1, I2, Ha2, I3, I4, orb_assoc. repeat split; auto.
-  - cbn. repeat split; auto.
-Qed.
-
 Lemma process_csm_options_ok : forall os c st,
   let '(c1, st1, o, ok) := process_csm_options c st os in op_ok c (c1, o, ok) ok.
 Proof.
@@ -323,12 +300,7 @@ Proof.
   cbn [process_csm_options]. destruct (n =? 2); [apply IH|]. destruct (n =? 4); [apply IH|].
   destruct (is_critical n); [|apply IH].
   pose proof (abort_ok c txt_option_not_supported (Some n)) as Ha. cbv zeta in Ha.
-  destruct (abort c _ (Some n)) as [[c1 o1] ok]. cbn [snd] in Ha. destruct Ha as (Ha1 & Ha2 & Ha3 & Ha4).
-  destruct ok.
-  - specialize (IH c1 st). destruct (process_csm_options c1 st r) as [[[c2 st2] o2] ok2].
-    destruct IH as (I1 & I2 & I3 & I4). cbn [op_ok].
-    rewrite esc_app, has_close_app, Ha1, I1, I2, Ha2, I3, I4, orb_assoc. repeat split; auto.
-  - cbn. repeat split; auto.
+  destruct (abort c _ (Some n)) as [[c1 o1] ok]. cbn [snd] in Ha. exact Ha.
 Qed.
 
 Definition is_sexc (r : sigres) : bool := match r with SExc => true | _ => false end.
@@ -341,17 +313,17 @@ Proof.
     destruct (process_csm_options c _ (opts m)) as [[[c1 s1] o] ok]. destruct H as (H1 & H2 & H3 & H4).
     cbn. destruct ok; repeat split; auto. }
   destruct ((code m =? PING) || (code m =? PONG) || (code m =? RELEASE) || (code m =? ABORT)).
-  { pose proof (check_critical_options_ok (opts m) c) as H. cbv zeta in H.
-    destruct (check_critical_options c (opts m)) as [[c1 o1] ok]. cbn [snd] in H. destruct H as (H1 & H2 & H3 & H4).
-    destruct ok; cbn [negb].
-    2:{ cbn. repeat split; auto. }
+  { destruct (has_critical (opts m)).
+    { pose proof (abort_ok c txt_unknown_critical_option None) as Ha. cbv zeta in Ha.
+      destruct (abort c _ None) as [[c1 o1] ok]. cbn [snd] in Ha. destruct Ha as (Ha1 & Ha2 & Ha3 & Ha4).
+      cbn. destruct ok; repeat split; auto. }
     destruct (code m =? PING).
-    { pose proof (send_message_ok c1 {| code := PONG; token := token m; opts := []; payload := [] |}) as Hs. cbv zeta in Hs.
-      destruct (send_message c1 _) as [[c2 o2] ok2]. cbn [snd] in Hs. destruct Hs as (S1 & S2 & S3 & S4).
-      cbn [op_ok snd]. rewrite esc_app, has_close_app, H1, S1, S2, H2, S3, S4, orb_assoc.
-      destruct ok2; repeat split; auto. }
-    destruct (code m =? PONG). { cbn. repeat split; auto. }
-    destruct (code m =? RELEASE); cbn; repeat split; auto. }
+    { pose proof (send_message_ok c {| code := PONG; token := token m; opts := []; payload := [] |}) as Hs. cbv zeta in Hs.
+      destruct (send_message c _) as [[c2 o2] ok2]. cbn [snd] in Hs. destruct Hs as (S1 & S2 & S3 & S4).
+      cbn. destruct ok2; repeat split; auto. }
+    assert (Hq : forall r, r <> SExc -> op_ok c (c, @nil out, r) (negb (is_sexc r))).
+    { intros r Hr. destruct r; try congruence; cbn; repeat split; auto; destruct (closed c); reflexivity. }
+    destruct (code m =? PONG); [apply Hq; discriminate|]. destruct (code m =? RELEASE); apply Hq; discriminate. }
   pose proof (abort_ok c txt_unknown_signalling_code None) as Ha. cbv zeta in Ha.
   destruct (abort c _ None) as [[c1 o1] ok]. cbn [snd] in Ha. destruct Ha as (Ha1 & Ha2 & Ha3 & Ha4).
   cbn. destruct ok; repeat split; auto.
@@ -362,10 +334,10 @@ Proof. unfold abort. destruct (serialize _); reflexivity. Qed.
 
 Definition frame_post (c : conn) (r : bytes) (x : fres) : Prop :=
   match x with
-  | FStop c1 o1 => closed c1 = closed c || has_close o1 /\ esc o1 || has_close o1 = true /\
+  | FStop c1 o1 => closed c1 = closed c || has_close o1 /\ (closed c = false -> esc o1 || has_close o1 = true) /\
                    (spool c1 = spool c \/ spool c1 = r) /\ my_max_message_size c1 = my_max_message_size c
   | FNext c1 o1 => closed c1 = closed c || has_close o1 /\ esc o1 = false /\ spool c1 = r /\
-                   my_max_message_size c1 = my_max_message_size c
+                   my_max_message_size c1 = my_max_message_size c /\ (closed c = false -> closed c1 = false)
   end.
 Lemma frame_step_post c f r : frame_post c r (frame_step c f r).
 Proof.
@@ -381,9 +353,12 @@ Proof.
     destruct (process_signaling (set_spool c r) m) as [[c1 o1] res]. cbn [snd] in H. destruct H as (H1 & H2 & H3 & H4).
     cbn [closed set_spool my_max_message_size spool] in *.
     destruct res; cbn in H1; cbn [frame_post].
-    - repeat split; auto.
+    - destruct (closed c1) eqn:Hc1; cbn [frame_post].
+      + split; [rewrite Hc1; exact H2|]. split; [|split; auto].
+        intros Hc. rewrite Hc in H2. cbn [orb] in H2. rewrite <- H2. apply orb_true_r.
+      + rewrite Hc1. repeat split; auto.
     - split; [cbn; rewrite has_close_app; cbn; rewrite !orb_true_r; reflexivity|].
-      split; [rewrite esc_app, H1; reflexivity|]. split; cbn; auto.
+      split; [intros _; rewrite has_close_app; cbn; rewrite !orb_true_r; reflexivity|]. split; cbn; auto.
     - rewrite H1. repeat split; auto. }
   change (remote_settings (set_spool c r)) with (remote_settings c).
   destruct (remote_settings c).
@@ -399,7 +374,7 @@ Qed.
 Definition loop_post (c : conn) (r : conn * list out * ctl) : Prop :=
   let '(c1, o1, k) := r in
   closed c1 = closed c || has_close o1 /\ (esc o1 = true -> k = Return) /\
-  (k = Return -> esc o1 = true \/ has_close o1 = true) /\ bytes_ok (spool c1) = true /\
+  (closed c = false -> k = Return -> esc o1 = true \/ has_close o1 = true) /\ bytes_ok (spool c1) = true /\
   my_max_message_size c1 = my_max_message_size c.
 
 Lemma loop_inv : forall n c, (length (spool c) < n)%nat -> bytes_ok (spool c) = true -> loop_post c (loop' c).
@@ -411,20 +386,20 @@ Proof.
   - pose proof (abort_ok c txt_overly_large None) as Ha. pose proof (abort_stops c txt_overly_large None) as Hb.
     cbv zeta in Ha. destruct (abort c _ None) as [[c1 o1] ok]. destruct Ha as (A1 & A2 & A3 & A4).
     cbn. repeat split; auto.
-    + intros _. apply orb_prop in Hb. exact Hb.
+    + intros _ _. apply orb_prop in Hb. exact Hb.
     + rewrite A4. exact Hok.
   - destruct (view_frame_facts _ _ _ _ Hok V) as (Hsp & Hlen & _ & Hrok & _).
     pose proof (frame_step_post c f r) as FP.
     destruct (frame_step c f r) as [c1 o1|c1 o1]; cbn [frame_post] in FP.
     + destruct FP as (F1 & F2 & F3 & F4). cbn. repeat split; auto.
-      * intros _. apply orb_prop in F2. exact F2.
+      * intros Hc _. apply orb_prop. exact (F2 Hc).
       * destruct F3 as [-> | ->]; assumption.
-    + destruct FP as (F1 & F2 & F3 & F4).
+    + destruct FP as (F1 & F2 & F3 & F4 & F5).
       specialize (IH c1 ltac:(rewrite F3; lia) ltac:(rewrite F3; exact Hrok)).
       destruct (loop' c1) as [[c2 o2] k]. destruct IH as (I1 & I2 & I3 & I4 & I5).
       cbn [loop_post]. rewrite esc_app, has_close_app, F2, I1, F1, orb_assoc. cbn [orb].
       repeat split; auto.
-      * intros Hk. destruct (I3 Hk) as [E|E]; [left; exact E|right; rewrite E; apply orb_true_r].
+      * intros Hc Hk. destruct (I3 (F5 Hc) Hk) as [E|E]; [left; exact E|right; rewrite E; apply orb_true_r].
       * congruence.
 Qed.
 
@@ -492,7 +467,7 @@ Proof.
     + (* the method returned: Abort sent and transport closed, or an exception *)
       cbn [snd].
       destruct (esc o1) eqn:Hesc; [reflexivity|].
-      destruct (P3 eq_refl) as [E|E]; [congruence|].
+      destruct (P3 Hcl eq_refl) as [E|E]; [congruence|].
       rewrite run_closed_data by congruence. cbn [snd]. rewrite app_nil_r. reflexivity.
 Qed.
 
@@ -545,7 +520,8 @@ Lemma frame_step_handle c f r m : decode_message f = Ok m ->
 Proof.
   intros Hdec. unfold frame_step, handle_message. rewrite Hdec.
   destruct (is_signalling (code m)).
-  { destruct (process_signaling (set_spool c r) m) as [[c1 o1] res]. destruct res; reflexivity. }
+  { destruct (process_signaling (set_spool c r) m) as [[c1 o1] res]. destruct res; try reflexivity.
+    destruct (closed c1); reflexivity. }
   destruct (remote_settings (set_spool c r)); [reflexivity|].
   destruct (abort (set_spool c r) _ None) as [[c1 o1] ok]. reflexivity.
 Qed.
